@@ -218,10 +218,17 @@ func readObject(ber []byte, offset int) (asn1Object, int, error) {
 		}
 	} else {
 		var subObjects []asn1Object
+		// An element of a definite-length value ends inside that value: elements are read from the value only.
+		// (Read from the whole input, an element could reach beyond its parent and the bytes behind the parent
+		// were parsed again and again - exponential time on nested input with inconsistent lengths.)
+		sub := ber
+		if !indefinite {
+			sub = ber[:contentEnd]
+		}
 		for (offset < contentEnd) || indefinite {
 			var subObj asn1Object
 			var err error
-			subObj, offset, err = readObject(ber, offset)
+			subObj, offset, err = readObject(sub, offset)
 			if err != nil {
 				return nil, 0, err
 			}
